@@ -144,10 +144,12 @@ class TrajectoryParser:
             object_name: possible_objects[object_name].type
             for object_name in fluent_signature_items
         }
-        for grounded_param_type, lifted_param_type in zip(
-            fluent_signature.values(), lifted_function.signature.values()
+        # the types are validated per position (the signature above is keyed by the object names, so repeated
+        # objects appear in it only once).
+        for object_name, lifted_param_type in zip(
+            fluent_signature_items, lifted_function.signature.values()
         ):
-            assert grounded_param_type.is_sub_type(lifted_param_type)
+            assert possible_objects[object_name].type.is_sub_type(lifted_param_type)
 
         return PDDLFunction(
             name=function_name,
